@@ -209,6 +209,28 @@ func skeleton(v interface{}) interface{} {
 	return v
 }
 
+// scalars lists the non-string scalar leaves (numbers, booleans) of a decoded object as text, sorted: what the template says
+// must arrive in the run spec digit by digit.
+func scalars(v interface{}, out *[]string) {
+	switch x := v.(type) {
+	case map[string]interface{}:
+		for _, e := range x {
+			scalars(e, out)
+		}
+	case []interface{}:
+		for _, e := range x {
+			scalars(e, out)
+		}
+	case string, nil:
+	case int64:
+		*out = append(*out, strconv.FormatInt(x, 10))
+	case float64:
+		*out = append(*out, strconv.FormatFloat(x, 'f', -1, 64))
+	default:
+		*out = append(*out, fmt.Sprint(x))
+	}
+}
+
 // ---------------------------------------------------------------- YAML text of a document (own emitter: styles are chosen per leaf)
 
 func dq(s string) string {
